@@ -115,6 +115,10 @@ func genC14(t *rapid.T) c14Case {
 	g := graphs[0]
 	c := c14Case{ProfileText: text, Graph: g, Maps: genSourceMaps(t, g)}
 	c.Opts = m.LDOpts{Unwrap1: rapid.Bool().Draw(t, "unwrap1"), Embed: rapid.Bool().Draw(t, "embed"), NativeLit: rapid.Bool().Draw(t, "native"), GraphWrap: rapid.IntRange(0, 1).Draw(t, "wrap")}
+	genScale(t, g, 16)
+	if rapid.IntRange(0, 11).Draw(t, "padded") == 0 {
+		c.Opts.PadBytes = rapid.SampledFrom([]int{70_000, 600_000, 1_200_000}).Draw(t, "padBytes")
+	}
 	return c
 }
 
